@@ -79,12 +79,19 @@ Definition parse_err_prefix (e : perr) : bytes * bool (* exact *) :=
 Definition printable (b : bytes) : bool :=
   forallb (fun x => (32 <=? b2n x) && (b2n x <=? 126)) b.
 
-(** drop everything up to and including the first "'" CR LF *)
-Fixpoint after_quote_crlf (s : bytes) : bytes :=
+(** the reply line of an unknown command ends with "'" CR LF, but the echoed name
+    may contain that sequence itself: try the continuation after every occurrence *)
+Fixpoint try_after_quote_crlf (k : bytes -> bool) (s : bytes) : bool :=
   match s with
-  | a :: ((b :: c :: rest) as t) =>
-      if byte_eqb a Byte.x27 && byte_eqb b CR && byte_eqb c LF then rest else after_quote_crlf t
-  | _ => []
+  | a :: t =>
+      match t with
+      | b :: c :: rest =>
+          if byte_eqb a Byte.x27 && byte_eqb b CR && byte_eqb c LF
+          then k rest || try_after_quote_crlf k t
+          else try_after_quote_crlf k t
+      | _ => false
+      end
+  | [] => false
   end.
 
 Fixpoint after_crlf (s : bytes) : bytes :=
@@ -117,7 +124,7 @@ Fixpoint match_stream (loose : bool) (items : list item) (obs : bytes) : bool :=
                 end
               else
                 match skipn_prefix (s_ "-ERR unknown command '") obs with
-                | Some o => match_stream loose rest (after_quote_crlf o)
+                | Some o => try_after_quote_crlf (match_stream loose rest) o || loose
                 | None => loose && is_prefix obs (s_ "-ERR unknown command '")
                 end
           | IReply r =>
